@@ -602,6 +602,20 @@ def check_C09(tier, seed):
         parser_runs(rep, "bounds", seed + 12, "c09b_", 14, 2000, parsers="aig", specs=("Trace_AigerRef",))
         reader_histories(rep, tier, seed + 9, "c09r_", False, 14, 4000, ops=60, maxlen=96)
         parser_runs(rep, "lines", seed, "c09_", 14, 6000)
+    # one successful read per refill for every chunk size, also 1 MiB with a source that fills every read (streams)
+    exe = vlib.build_harness(True)
+    sp = os.path.join(TRACES, "c09_stream.ndjson")
+    pr = subprocess.run([exe, "stream", "--out", sp, "--bytes", "2097152" if tier == QUICK else "16777216", "--parsers", "cnf,aig,btor2",
+                         "--chunks", "256,16384,1048576"], cwd=vlib.ROOT, stdout=subprocess.PIPE, stderr=subprocess.PIPE, text=True, timeout=3000)
+    if pr.returncode != 0:
+        raise ToolError("vh stream failed (exit %d): %s" % (pr.returncode, pr.stderr[-800:]))
+    res = validate_traces("c09_stream", "Trace_Contract", "Trace_Contract.cfg", [sp])
+    for rej in res["rejected"]:
+        first = json.loads(rej["first_unmatched"])
+        rep.violation({"kind": "stream-reads", "parser": first.get("parser", ""), "object": "parser", "event": "stream", "op": "",
+                       "spec": "Trace_Contract", "panic": first.get("res") == "panic"},
+                      {"spec": "Trace_Contract", "how_to_replay": "vh stream --bytes %s --chunks 256,16384,1048576 (release build)" % first.get("bytes"),
+                       "records": [json.loads(x) for x in rej["records"]], "first_unmatched": first})
     rep.cov["rule"] = ("reader clause: ReaderAbs enables a source read only while the pending request is unsatisfied and the "
                        "source has not ended (model-checked refinement; every src record of every trace); item clause: "
                        "well-formed documents of every streaming parser through a source that returns at most one line per "
